@@ -85,7 +85,9 @@ def parse_message(message, validation_level=None, find_groups=True, message_prof
                     encoding_chars=encoding_chars)
 
     try:
-        children = parse_segments(message, m.version, encoding_chars, validation_level, m.reference, find_groups)
+        # a Z message has no defined structure: no group can be found in it, its segments are kept as they come
+        children = parse_segments(message, m.version, encoding_chars, validation_level, m.reference,
+                                  find_groups and not m.is_z_element())
     except AttributeError:  # m.reference can raise i
         children = parse_segments(message, m.version, encoding_chars, validation_level, find_groups=False)
 
